@@ -16,6 +16,9 @@ char *strtok_r(char *str, const char *delim, char **saveptr) {
 	/* search first not delimiting character */
 	do {
 		if ('\0' == (ch = *str++)) {
+			/* no token: later searches start at the terminator
+			 * and find nothing either */
+			*saveptr = str - 1;
 			return NULL;
 		}
 	} while(strchr(delim, ch));
